@@ -419,6 +419,21 @@ MUTANTS = [
      "        stop_max_iter = i >= (self.max_iter - 1)\n", "        stop_max_iter = i >= (self.max_iter - 2)\n"),
     ("C20-restored-patience-forgotten", "liesel/goose/optim.py",
      "    stopper.patience = user_patience\n", ""),
-    ("C20-batches-from-fixed-fraction", "liesel/goose/optim.py",
-     "    shuffled_indices = jax.random.permutation(key, n)\n", "    shuffled_indices = jnp.roll(jnp.arange(n), jax.random.randint(key, (), 0, 2))\n"),
+    # ------------------------------------------------------------------ C05
+    ("C05-nan-ratio-mapped-to-plus-inf", "liesel/goose/mh.py",
+     "        lambda: (-jnp.inf, 90),\n", "        lambda: (jnp.inf, 90),\n"),
+    ("C05-error-code-90-dropped", "liesel/goose/mh.py",
+     "        lambda: (-jnp.inf, 90),\n", "        lambda: (-jnp.inf, 0),\n"),
+    ("C05-state-branches-swapped", "liesel/goose/mh.py",
+     "        lambda: proposed_model_state,\n        lambda: model_state,\n", "        lambda: model_state,\n        lambda: proposed_model_state,\n"),
+    ("C05-acceptance-prob-not-clipped", "liesel/goose/mh.py",
+     "    acceptance_prob = jnp.clip(jnp.exp(log_acc_prob), max=1.0)\n", "    acceptance_prob = jnp.exp(log_acc_prob)\n"),
+    ("C05-correction-ignored", "liesel/goose/mh.py",
+     "    log_acc_prob = proposed_log_prob - current_log_prob + log_correction\n", "    log_acc_prob = proposed_log_prob - current_log_prob\n"),
+    ("C05-moved-flag-from-probability", "liesel/goose/mh.py",
+     "    info = DefaultTransitionInfo(error_code, acceptance_prob, do_accept)\n", "    info = DefaultTransitionInfo(error_code, acceptance_prob, acceptance_prob > 0)\n"),
+    ("C05-nan-guard-checks-only-proposal", "liesel/goose/mh.py",
+     "        jnp.isnan(log_acc_prob),\n", "        jnp.isnan(proposed_log_prob),\n"),
+    ("C05-uniform-from-other-half-open-interval", "liesel/goose/mh.py",
+     "    do_accept = jax.random.uniform(prng_key) < acceptance_prob\n", "    do_accept = (1.0 - jax.random.uniform(prng_key)) <= acceptance_prob\n"),
 ]
